@@ -5,6 +5,7 @@ import Rq.Model.Plan
 import Rq.Model.BitMat
 import Rq.Model.Sparse
 import Rq.Model.Cache
+import Rq.Model.PiSolver
 /-! Driver handlers for the codec engine (E3). I/O glue around the model functions. -/
 namespace Rq.DriverE3
 open Rq Rq.Io
@@ -365,3 +366,30 @@ def handle (w : List String) : Option String :=
   | _ => none
 
 end Rq.DriverC
+
+namespace Rq.DriverS
+open Rq Rq.Io
+
+def showOp : SymOp → String
+  | .add d s => s!"a:{d}:{s}"
+  | .mul d c => s!"m:{d}:{c}"
+  | .fma d s c => s!"f:{d}:{s}:{c}"
+  | .reorder o => "r:" ++ ".".intercalate (o.map toString)
+
+def handle (w : List String) : Option String :=
+  match w with
+  -- pisolve <K> <isis or '-'> dense|sparse : digest of the operation vector of the modelled five-phase solver
+  | ["pisolve", k, isis, be] => some <|
+      match sysParams (nat k) with
+      | none => "err"
+      | some sp =>
+        let isl := if isis == "-" then List.range sp.kp else natList isis
+        let r := if be == "sparse" then piSolveSparse sp isl else piSolveDense sp isl
+        match r with
+        | none => "none"
+        | some ops =>
+          let s := ",".intercalate (ops.map showOp)
+          toString ops.length ++ " " ++ toString (fnv s.toUTF8)
+  | _ => none
+
+end Rq.DriverS
